@@ -12,6 +12,7 @@ package main
 //       - "<local>" for a local identifier, "<const>" for a literal, "=<text>" for a string literal in the
 //         security-scheme switch, "<make>" for `make(…)`, "<call>" for other calls on non-source values;
 //   * fields tagged `json:"-"` (Extensions) are skipped;
+//   * `nullableTable`: see nullableRows (the nullable copy reads the VALUE of the extension x-nullable);
 //   * `ref2To3` and `bodyParamNameRows`: the string literals of the package-level variables `ref2To3` (prefix map of
 //     ToV3Ref / FromV3Ref) and `attemptedBodyParameterNames`;
 //   * `<fn>Assigned` lists (ToV3SchemaRef, FromV3SchemaRef, ToV3Operation, FromV3Operation): the JSON keys of the fields of the destination
@@ -353,6 +354,102 @@ func (c *ctx17) assignedFields(fnName, dstVar, dstType string) []string {
 	return out
 }
 
+// nullableRows: where the nullability of a schema comes from, in both directions.
+//   ToV3SchemaRef:   `v3Schema.Nullable = <rhs>` — the row ("nullable", S) with S =
+//       "ext[x-nullable].(bool)" when <rhs> is an identifier bound by `<rhs>, _ := V.(bool)` and V is (bound by
+//       `V, _ := …` to) the index expression `schema.Value.Extensions["x-nullable"]`: the VALUE of the extension;
+//       "<const>" when <rhs> is a literal: the value of the extension is not read.
+//   FromV3SchemaRef: `v2Schema.Extensions["x-nullable"] = <lit>` inside `if schema.Value.PermitsNull() {…}` — the row
+//       ("x-nullable", "=<lit> if PermitsNull").
+func (c *ctx17) nullableRows() []row17 {
+	var rows []row17
+	if fn := c.convFn["ToV3SchemaRef"]; fn != nil {
+		// definitions `a, b := rhs` by first name
+		defs := map[string]ast.Expr{}
+		ast.Inspect(fn.Body, func(n ast.Node) bool {
+			if as, ok := n.(*ast.AssignStmt); ok && as.Tok == token.DEFINE && len(as.Rhs) == 1 {
+				if id, ok := as.Lhs[0].(*ast.Ident); ok {
+					defs[id.Name] = as.Rhs[0]
+				}
+			}
+			return true
+		})
+		isExt := func(e ast.Expr) bool {
+			if id, ok := e.(*ast.Ident); ok {
+				e = defs[id.Name]
+			}
+			ix, ok := e.(*ast.IndexExpr)
+			if !ok || exprText(ix.X) != "schema.Value.Extensions" {
+				return false
+			}
+			bl, ok := ix.Index.(*ast.BasicLit)
+			return ok && bl.Value == `"x-nullable"`
+		}
+		found := false
+		ast.Inspect(fn.Body, func(n ast.Node) bool {
+			as, ok := n.(*ast.AssignStmt)
+			if !ok || len(as.Lhs) != 1 || len(as.Rhs) != 1 || exprText(as.Lhs[0]) != "v3Schema.Nullable" {
+				return true
+			}
+			found = true
+			pos := c.fset.Position(as.Pos())
+			src := "<unreadable>"
+			switch r := as.Rhs[0].(type) {
+			case *ast.Ident:
+				if r.Name == "true" || r.Name == "false" {
+					src = "<const>"
+				} else if ta, ok := defs[r.Name].(*ast.TypeAssertExpr); ok && exprText(ta.Type) == "bool" && isExt(ta.X) {
+					src = "ext[x-nullable].(bool)"
+				}
+			case *ast.BasicLit:
+				src = "<const>"
+			}
+			if src == "<unreadable>" {
+				c.unrec = append(c.unrec, fmt.Sprintf("%s:%d: source of v3Schema.Nullable", filepath.Base(pos.Filename), pos.Line))
+			}
+			rows = append(rows, row17{"nullable", src})
+			return true
+		})
+		if !found {
+			c.unrec = append(c.unrec, "ToV3SchemaRef: no assignment to v3Schema.Nullable")
+		}
+	}
+	if fn := c.convFn["FromV3SchemaRef"]; fn != nil {
+		found := false
+		ast.Inspect(fn.Body, func(n ast.Node) bool {
+			is, ok := n.(*ast.IfStmt)
+			if !ok {
+				return true
+			}
+			call, ok := is.Cond.(*ast.CallExpr)
+			if !ok || exprText(call.Fun) != "schema.Value.PermitsNull" {
+				return true
+			}
+			for _, st := range is.Body.List {
+				as, ok := st.(*ast.AssignStmt)
+				if !ok || len(as.Lhs) != 1 || len(as.Rhs) != 1 {
+					continue
+				}
+				ix, ok := as.Lhs[0].(*ast.IndexExpr)
+				if !ok || exprText(ix.X) != "v2Schema.Extensions" {
+					continue
+				}
+				bl, ok := ix.Index.(*ast.BasicLit)
+				if !ok || bl.Value != `"x-nullable"` {
+					continue
+				}
+				found = true
+				rows = append(rows, row17{"x-nullable", "=" + exprText(as.Rhs[0]) + " if PermitsNull"})
+			}
+			return true
+		})
+		if !found {
+			c.unrec = append(c.unrec, "FromV3SchemaRef: no x-nullable assignment under PermitsNull")
+		}
+	}
+	return rows
+}
+
 // stringVar reads a package-level `var name = map[string]string{…}` (rows key → value, source order) or
 // `var name = []string{…}` (rows element → "") whose keys / elements are string literals.
 func (c *ctx17) stringVar(f *ast.File, name string) []row17 {
@@ -435,6 +532,7 @@ func extractCopyTables(repo string) (string, error) {
 		{"fromV3SecTable", c.secBackTable()},
 		{"toV3OpTable", c.litTable("ToV3Operation", "openapi3.Operation", "operation", "openapi2.Operation")},
 		{"fromV3OpTable", c.litTable("FromV3Operation", "openapi2.Operation", "operation", "openapi3.Operation")},
+		{"nullableTable", c.nullableRows()},
 		{"ref2To3", c.stringVar(f, "ref2To3")},
 		{"bodyParamNameRows", c.stringVar(f, "attemptedBodyParameterNames")},
 	}
